@@ -1020,8 +1020,11 @@ class StrategyBase(Node):
                 delta = weight * base - c.weight * self.notional_value
                 c.allocate(delta, update=update)
         else:
-            delta = weight - c.weight
-            c.allocate(delta * base, update=update)
+            # measure the current holding in currency (not as a weight of
+            # the strategy value), since base may differ from the strategy
+            # value, i.e. when part of it is set aside as cash
+            delta = weight * base - c.value
+            c.allocate(delta, update=update)
 
     @cy.locals(update=cy.bint)
     def close(self, child, update=True):
